@@ -199,15 +199,16 @@ class FieldData:
                "Cannot rename the line to '{}'\n".format(value)+
                "ID not unique\n"+
                "Matching previous line: {}".format(str(other)))
-         self._gfa._unregister_line(self)
+    if value is not None and self.vlevel >= 3:
+      self._field_or_default_datatype(fieldname, value)
+      gfapy.Field._validate_gfa_field(value, self._field_datatype(fieldname),
+          fieldname)
+    if renaming_connected:
+      self._gfa._unregister_line(self)
     if value is None:
       if fieldname in self._data:
         self._data.pop(fieldname)
     else:
-      if self.vlevel >= 3:
-        self._field_or_default_datatype(fieldname, value)
-        gfapy.Field._validate_gfa_field(value, self._field_datatype(fieldname),
-            fieldname)
       self._data[fieldname] = value
     if renaming_connected:
       self._gfa._register_line(self)
